@@ -1,4 +1,5 @@
 import Ecal.Props.C05
+import Ecal.Lemmas.C06EvalSites
 /-!
 # C11 — part of `hW` as a theorem about the REAL evaluator model's scope primitives
 
@@ -29,9 +30,17 @@ Whole bodies: `eval_statements_frame` (the sequencing induction over the `statem
 statements satisfying `StmtOK`), `fragment_body_frame` / `sink_body_leaves_others_alone`: a body of `let v` and
 `v := w` statements evaluated by `Ecal.Ev.eval` in the sink scope writes nothing outside the sink's sub-tree —
 `hW` for this fragment with no hypothesis about what evaluation writes.
-What is NOT here (stated, not proved): `StmtOK` for the other statements of the intended fragment — arithmetic
-and literals on the right side, `if` (needs allocation: `block_scope_keeps_outside` is only the single step and
-`Frame` is size-preserving), x.* calls — and the READ half of isolation.
+Computed values (round 6): `arithExpr_reads` — `eval` on any arithmetic expression (`+ - * / //`, nested) over
+plain variables and number literals leaves the state unchanged whatever the result (`eval` on these nodes is
+`numOp`: `Ecal.Lemmas.C06Sites.eval_arith`); `eval_assign_expr_statement_frame` (`v := e` for any reading `e`);
+`computed_body_frame` / `computed_body_leaves_others_alone`: bodies of `let v` and `v := e` statements.
+Read half (round 6): `arithExpr_value_local` — the result of `eval` on such an expression in scope `sc` is the same
+in any two states that agree on `sc` and its ancestors; `computed_body_noninterference` — after invocation A has
+evaluated a fragment body in its sink scope, every such expression invocation B evaluates in its own scopes gives
+exactly the result it gave before (write half + read half, about `eval`, no hypothesis on reads or writes).
+What is NOT here (stated, not proved): `StmtOK` for `if` (needs allocation: `block_scope_keeps_outside` is only
+the single step and `Frame` is size-preserving), for x.* calls, strings, comparisons; the read half for whole
+BODIES (B's statements interleaved with A's; allocation renames indices), hence isolation via `isolation_mod`.
 -/
 namespace Ecal.Props.C11Frame
 open Ecal.Ev
@@ -768,4 +777,485 @@ example : ∀ c ∈ demoBody.children, ∃ c', c = some c' ∧ (IsLet c' ∨ IsA
   · exact ⟨_, rfl, Or.inr ⟨idNode 121, idNode 103, _, _, [121], [103], rfl, rfl, rfl, rfl, rfl, rfl,
       by decide, rfl, rfl, rfl, by decide, by decide⟩⟩
 
+/-! ### computed values: literals and arithmetic on the right side (round 6) -/
+
+/-- evaluating `e` (any fuel, scope `sc`) only reads: the state is what it was, whatever the result -/
+def Reads (sc : Nat) (e : Ecal.Parse.Node) : Prop :=
+  ∀ f s r s', runM (eval f sc e) s = (r, s') → s' = s
+
+theorem exists_pure_ite {α : Type} (c : Prop) [Decidable c] (a b : α) :
+    ∃ x, (if c then (pure a : M α) else pure b) = pure x := by
+  by_cases h : c
+  · exact ⟨a, by simp [h]⟩
+  · exact ⟨b, by simp [h]⟩
+
+theorem numberOf_pure (t : Ecal.Lex.Tok) : ∃ x, numberOf t = pure x := by
+  unfold numberOf
+  simp only
+  exact exists_pure_ite _ _ _
+
+theorem eval_zero_state (sc : Nat) (e : Ecal.Parse.Node) (s s' : St) (r : Except Sig Val)
+    (h : runM (eval 0 sc e) s = (r, s')) : s' = s := by
+  unfold eval at h
+  injection h with _ h2
+  exact h2.symm
+
+theorem reads_number (sc : Nat) (n : Ecal.Parse.Node) (hname : n.name = "number") : Reads sc n := by
+  intro f s r s' h
+  cases f with
+  | zero => exact eval_zero_state sc n s s' r h
+  | succ f =>
+    unfold eval at h
+    simp only [hname] at h
+    rw [runM_bind, Ecal.Ev.runM_tokOf] at h
+    cases ht : n.tok with
+    | none => rw [ht] at h; simp only at h; injection h with _ h2; exact h2.symm
+    | some t =>
+      rw [ht] at h
+      simp only at h
+      obtain ⟨x, hx⟩ := numberOf_pure t
+      rw [runM_bind, hx, runM_pure] at h
+      simp only [runM_pure] at h
+      injection h with _ h2; exact h2.symm
+
+theorem reads_plain_identifier (sc : Nat) (n : Ecal.Parse.Node) (t : Ecal.Lex.Tok) (vb : List Nat)
+    (hname : n.name = "identifier") (ht : n.tok = some t) (hc : n.children.isEmpty = true)
+    (hn : splitDots t.val = [vb]) : Reads sc n := by
+  intro f s r s' h
+  match f with
+  | 0 => exact eval_zero_state sc n s s' r h
+  | 1 =>
+    unfold eval at h
+    simp only [hname] at h
+    unfold evalIdent at h
+    injection h with _ h2
+    exact h2.symm
+  | f + 2 => exact eval_plain_identifier_reads f sc n t vb s s' r hname ht hc hn h
+
+/-- `numOp` with operands that only read, only reads -/
+theorem numOp_reads (sc : Nat) (n ca cb : Ecal.Parse.Node) (op : Float → Float → Val)
+    (hch : n.children = [some ca, some cb]) (ha : Reads sc ca) (hb : Reads sc cb) :
+    ∀ f s r s', runM (numOp f sc n op) s = (r, s') → s' = s := by
+  intro f s r s' h
+  cases f with
+  | zero => unfold numOp at h; injection h with _ h2; exact h2.symm
+  | succ f =>
+    unfold numOp at h
+    have hl : (n.children.length != 2) = false := by rw [hch]; rfl
+    have h0 : n.children[0]? = some (some ca) := by rw [hch]; rfl
+    have h1 : n.children[1]? = some (some cb) := by rw [hch]; rfl
+    simp only [hl, Bool.false_eq_true, if_false] at h
+    rw [runM_bind, Ecal.Ev.runM_child, h0] at h
+    simp only at h
+    rw [runM_bind] at h
+    cases hea : runM (eval f sc ca) s with
+    | mk ra sa =>
+      have ea := ha f s ra sa hea
+      subst ea
+      rw [hea] at h
+      cases ra with
+      | error e => simp only at h; injection h with _ h2; exact h2.symm
+      | ok a =>
+        simp only at h
+        rw [runM_bind, Ecal.Ev.runM_child, h1] at h
+        simp only at h
+        rw [runM_bind] at h
+        cases heb : runM (eval f sc cb) sa with
+        | mk rb sb =>
+          have eb := hb f sa rb sb heb
+          subst eb
+          rw [heb] at h
+          cases rb with
+          | error e => simp only at h; injection h with _ h2; exact h2.symm
+          | ok b =>
+            simp only at h
+            cases a <;> cases b <;>
+              first
+              | (simp only [runM_pure] at h; injection h with _ h2; exact h2.symm)
+              | (rw [runM_bind, Ecal.Ev.runM_child] at h
+                 first
+                 | (rw [h0] at h; simp only [runM_throw] at h; injection h with _ h2; exact h2.symm)
+                 | (rw [h1] at h; simp only [runM_throw] at h; injection h with _ h2; exact h2.symm))
+
+/-- right sides of the fragment: plain variables, number literals and the two-operand arithmetic
+    nodes `+ - * / //` over them (any nesting) -/
+inductive ArithExpr : Ecal.Parse.Node → Prop
+  | ident (n : Ecal.Parse.Node) (t : Ecal.Lex.Tok) (vb : List Nat) : n.name = "identifier" → n.tok = some t →
+      n.children.isEmpty = true → splitDots t.val = [vb] → ArithExpr n
+  | number (n : Ecal.Parse.Node) : n.name = "number" → ArithExpr n
+  | arith (n ca cb : Ecal.Parse.Node) : n.children = [some ca, some cb] →
+      (n.name = "plus" ∨ n.name = "minus" ∨ n.name = "times" ∨ n.name = "div" ∨ n.name = "divint") →
+      ArithExpr ca → ArithExpr cb → ArithExpr n
+
+/-- **arithExpr_reads.** Evaluating an arithmetic expression over variables and literals with `eval` — any
+    fuel, any scope, any state, whatever the result (value, type error, fuel) — leaves the state exactly
+    as it was: expressions of the fragment only read. (`eval` on the arithmetic nodes is `numOp`:
+    `Ecal.Lemmas.C06Sites.eval_arith`.) -/
+theorem arithExpr_reads (sc : Nat) (e : Ecal.Parse.Node) (h : ArithExpr e) : Reads sc e := by
+  induction h with
+  | ident n t vb h1 h2 h3 h4 => exact reads_plain_identifier sc n t vb h1 h2 h3 h4
+  | number n h1 => exact reads_number sc n h1
+  | arith n ca cb hch hname _ _ iha ihb =>
+    intro f s r s' h
+    cases f with
+    | zero => exact eval_zero_state sc n s s' r h
+    | succ f =>
+      obtain ⟨op, hop⟩ := Ecal.Lemmas.C06Sites.eval_arith f sc n ca cb hch hname
+      rw [hop] at h
+      exact numOp_reads sc n ca cb op hch iha ihb f s r s' h
+
+/-- **eval_assign_expr_statement_frame.** The assignment statement `v := e` of the evaluator with a plain
+    identifier on the left and ANY right side that only reads (`Reads`, e.g. an `ArithExpr`): evaluated
+    successfully in a scope below the sink, `v` not defined in the declaring chain — a `Frame` step. -/
+theorem eval_assign_expr_statement_frame (snk f sc : Nat) (n lhs rhs : Ecal.Parse.Node) (tl : Ecal.Lex.Tok)
+    (vl : List Nat) (st st' : St) (x : Val)
+    (hname : n.name = ":=") (h0 : n.children[0]? = some (some lhs)) (h1 : n.children[1]? = some (some rhs))
+    (hl : lhs.name = "identifier") (hlc : lhs.children.isEmpty = true) (hlt : lhs.tok = some tl)
+    (hln : splitDots tl.val = [vl]) (hrhs : Reads sc rhs)
+    (hsc : Up st sc snk) (hno : NoOuterDef st snk (bytesToString vl))
+    (h : runM (eval (f + 4) sc n) st = (.ok x, st')) : Frame snk st st' := by
+  unfold eval at h
+  simp only [hname] at h
+  unfold evalAssign at h
+  rw [runM_bind, Ecal.Ev.runM_child, h0] at h
+  have hnl : (lhs.name == "let") = false := by rw [hl]; decide
+  have hid : (lhs.name == "identifier") = true := by rw [hl]; decide
+  simp only [hnl, Bool.false_eq_true, if_false, runM_bind, runM_pure, hid, if_true] at h
+  cases he : runM (eval (f + 2) sc lhs) st with
+  | mk r1 s1 =>
+    have e1 := eval_plain_identifier_reads f sc lhs tl vl st s1 r1 hl hlt hlc hln he
+    subst e1
+    rw [he] at h
+    cases r1 with
+    | error e => simp at h
+    | ok v0 =>
+      simp only at h
+      rw [Ecal.Ev.runM_child, h1] at h
+      simp only at h
+      cases hv : runM (eval (f + 2) sc rhs) s1 with
+      | mk r2 s2 =>
+        have e2 := hrhs (f + 2) s1 r2 s2 hv
+        subst e2
+        rw [hv] at h
+        cases r2 with
+        | error e => simp at h
+        | ok v =>
+          simp only [List.length_cons, List.length_nil, beq_self_eq_true, if_true] at h
+          cases hi : runM (identSet (f + 2) sc lhs v) s2 with
+          | mk r3 s3 =>
+            rw [runM_bind, hi] at h
+            cases r3 with
+            | error e => simp at h
+            | ok u =>
+              cases u
+              simp only [runM_pure] at h
+              injection h with _ hst
+              subst hst
+              exact assign_statement_frame snk (f + 1) sc lhs tl vl v s2 s3 hlt hlc hln hi hsc hno
+
+/-- the statement node `v := e`: plain identifier `v` (one of `names`), `e` an arithmetic expression -/
+def IsAssignExpr (names : List String) (c : Ecal.Parse.Node) : Prop :=
+  ∃ (lhs rhs : Ecal.Parse.Node) (tl : Ecal.Lex.Tok) (vl : List Nat),
+    c.name = ":=" ∧ c.children[0]? = some (some lhs) ∧ c.children[1]? = some (some rhs) ∧
+    lhs.name = "identifier" ∧ lhs.children.isEmpty = true ∧ lhs.tok = some tl ∧ splitDots tl.val = [vl] ∧
+    ArithExpr rhs ∧ bytesToString vl ∈ names
+
+theorem stmtOK_assignExpr (snk f sc : Nat) (names : List String) (c : Ecal.Parse.Node) (h : IsAssignExpr names c) :
+    StmtOK snk (f + 4) sc names c := by
+  obtain ⟨lhs, rhs, tl, vl, h1, h2, h3, h4, h5, h6, h7, h8, h9⟩ := h
+  intro s s' x hctx hr
+  exact eval_assign_expr_statement_frame snk f sc c lhs rhs tl vl s s' x h1 h2 h3 h4 h5 h6 h7
+    (arithExpr_reads sc rhs h8) hctx.below (hctx.fresh _ h9) hr
+
+/-- **computed_body_frame** — `hW` for the wider fragment, about `eval`. A sink body that is a `statements`
+    node of `let v` statements and assignments `v := e` of COMPUTED values — `e` any arithmetic expression
+    (`+ - * / //`, nested) over variables and number literals; `v` a plain identifier among `names`, none of
+    which the declaring chain defines — evaluated successfully by `Ecal.Ev.eval` in the sink scope (or a
+    scope below it) of a well-formed scope table: every scope outside the sink's sub-tree is unchanged;
+    size, parent links and well-formedness are kept. No hypothesis about what evaluation writes. -/
+theorem computed_body_frame (snk f sc : Nat) (names : List String) (n : Ecal.Parse.Node)
+    (hname : n.name = "statements")
+    (hall : ∀ c ∈ n.children, ∃ c', c = some c' ∧ (IsLet c' ∨ IsAssignExpr names c'))
+    (st st' : St) (x : Val) (hctx : Ctx snk sc names st)
+    (h : runM (eval (f + 5) sc n) st = (.ok x, st')) : Frame snk st st' := by
+  refine eval_statements_frame snk (f + 4) sc names n hname ?_ st st' x hctx h
+  intro c hc
+  obtain ⟨c', e, hk⟩ := hall c hc
+  refine ⟨c', e, ?_⟩
+  rcases hk with hk | hk
+  · exact stmtOK_let snk (f + 1) sc names c' hk
+  · exact stmtOK_assignExpr snk f sc names c' hk
+
+/-- **computed_body_leaves_others_alone**: for such a body in invocation A's sink scope, every scope of another
+    invocation B and every scope of the declaring chain is untouched. -/
+theorem computed_body_leaves_others_alone (snkA snkB f : Nat) (names : List String) (n : Ecal.Parse.Node)
+    (hname : n.name = "statements")
+    (hall : ∀ c ∈ n.children, ∃ c', c = some c' ∧ (IsLet c' ∨ IsAssignExpr names c'))
+    (st st' : St) (x : Val) (hctx : Ctx snkA snkA names st)
+    (h : runM (eval (f + 5) snkA n) st = (.ok x, st'))
+    (hAB : ¬ Up st snkA snkB) (hBA : ¬ Up st snkB snkA) :
+    (∀ t, Up st t snkB → st'.scope t = st.scope t) ∧
+    (∀ a, Up st snkA a → a ≠ snkA → st'.scope a = st.scope a) := by
+  have hf := computed_body_frame snkA f snkA names n hname hall st st' x hctx h
+  refine ⟨fun t ht => hf.keep t (disjoint_subtrees st snkA snkB t ht hAB hBA), ?_⟩
+  intro a ha hne
+  apply hf.keep a
+  intro hback
+  have h1 : a ≤ snkA := up_le st hctx.wf ha hctx.snk_lt
+  have h2 : snkA ≤ a := up_le st hctx.wf hback (Nat.lt_of_le_of_lt h1 hctx.snk_lt)
+  exact hne (Nat.le_antisymm h1 h2)
+
+/-- non-vacuity of the syntactic side: `y := g + 1 * x` (bytes y=121, g=103, x=120, literal "1") -/
+def numNode : Ecal.Parse.Node := .mk "number" (some ⟨6, 0, [49], false, false, 0, 1, 1⟩) 0 .none .none [] []
+
+def demoComputed : Ecal.Parse.Node :=
+  .mk ":=" none 0 .none .none
+    [some (idNode 121),
+     some (.mk "plus" none 0 .none .none
+       [some (idNode 103), some (.mk "times" none 0 .none .none [some numNode, some (idNode 120)] [])] [])] []
+
+example : IsAssignExpr ["y"] demoComputed :=
+  ⟨idNode 121, _, _, [121], rfl, rfl, rfl, rfl, rfl, rfl, by decide,
+    ArithExpr.arith _ (idNode 103) _ rfl (Or.inl rfl)
+      (ArithExpr.ident _ _ [103] rfl rfl rfl (by decide))
+      (ArithExpr.arith _ numNode (idNode 120) rfl (Or.inr (Or.inr (Or.inl rfl)))
+        (ArithExpr.number _ rfl) (ArithExpr.ident _ _ [120] rfl rfl rfl (by decide))),
+    by decide⟩
+/-! ### the read half for expressions, and non-interference of two invocations (round 6) -/
+
+/-- two states agree on `sc` and all its ancestors -/
+def AgreeOn (st st' : St) (sc : Nat) : Prop := ∀ t, Up st sc t → st'.scope t = st.scope t
+
+theorem AgreeOn.parent {st st' : St} {sc p : Nat} (h : AgreeOn st st' sc) (hp : (st.scope sc).parent = some p) :
+    AgreeOn st st' p := fun t ht => h t (Up.step hp ht)
+
+theorem scopeFor_local (st st' : St) (v : String) : ∀ (f sc : Nat), AgreeOn st st' sc →
+    (runM (scopeFor f sc v) st').1 = (runM (scopeFor f sc v) st).1 ∧
+    ∀ s, (runM (scopeFor f sc v) st).1 = .ok (some s) → Up st sc s := by
+  intro f
+  induction f with
+  | zero => intro sc _; simp [scopeFor_zero]
+  | succ f ih =>
+    intro sc hag
+    have hs : st'.scope sc = st.scope sc := hag sc (Up.refl sc)
+    have hd : st'.defines sc v = st.defines sc v := by simp [St.defines, hs]
+    rw [scopeFor_succ, scopeFor_succ, hd, hs]
+    by_cases hdef : st.defines sc v = true
+    · simp only [hdef, if_true, true_and]
+      intro s h
+      injection h with h
+      injection h with h
+      subst h
+      exact Up.refl _
+    · simp only [hdef]
+      cases hp : (st.scope sc).parent with
+      | none => simp
+      | some p =>
+        simp only
+        obtain ⟨h1, h2⟩ := ih p (hag.parent hp)
+        exact ⟨h1, fun s h => Up.step hp (h2 s h)⟩
+
+/-- the result of reading the plain variable `v` from scope `sc`, as a function of the state -/
+def readVar (st : St) (sc : Nat) (v : String) : Except Sig (Val × Bool) :=
+  match (runM (scopeFor 10000 sc v) st).1 with
+  | .ok (some s) => .ok (st.valueIn s v, true)
+  | .ok none => .ok (Val.null, false)
+  | .error e => .error e
+
+theorem getValue_plain_run (sc : Nat) (name vb : List Nat) (st : St) (hn : splitDots name = [vb]) :
+    runM (getValue sc name) st = (readVar st sc (bytesToString vb), st) := by
+  unfold getValue
+  simp only [hn]
+  rw [runM_bind]
+  unfold lookupVar
+  rw [runM_bind]
+  unfold readVar
+  cases hs : runM (scopeFor 10000 sc (bytesToString vb)) st with
+  | mk r1 s1 =>
+    have e1 := scopeFor_state _ _ _ _ _ _ hs
+    subst e1
+    cases r1 with
+    | error e => rfl
+    | ok o =>
+      cases o with
+      | none => rfl
+      | some s =>
+        simp only
+        rw [runM_bind, getScope_run]
+        rfl
+
+theorem readVar_local (st st' : St) (sc : Nat) (v : String) (h : AgreeOn st st' sc) :
+    readVar st' sc v = readVar st sc v := by
+  unfold readVar
+  obtain ⟨h1, h2⟩ := scopeFor_local st st' v 10000 sc h
+  rw [h1]
+  cases hr : (runM (scopeFor 10000 sc v) st).1 with
+  | error e => rfl
+  | ok o =>
+    cases o with
+    | none => rfl
+    | some s =>
+      simp only
+      have := h s (h2 s hr)
+      simp [St.valueIn, this]
+
+/-- the value of `e` in scope `sc` depends only on `sc` and its ancestors: states that agree there give
+    the same result (value or error), for every fuel -/
+def Local (sc : Nat) (e : Ecal.Parse.Node) : Prop :=
+  ∀ f st st', AgreeOn st st' sc → (runM (eval f sc e) st').1 = (runM (eval f sc e) st).1
+
+theorem eval_plain_identifier_run (f sc : Nat) (n : Ecal.Parse.Node) (t : Ecal.Lex.Tok) (vb : List Nat) (st : St)
+    (hname : n.name = "identifier") (ht : n.tok = some t) (hc : n.children.isEmpty = true)
+    (hn : splitDots t.val = [vb]) :
+    runM (eval (f + 2) sc n) st = ((readVar st sc (bytesToString vb)).map (·.1), st) := by
+  unfold eval
+  simp only [hname]
+  unfold evalIdent
+  rw [runM_bind, Ecal.Ev.runM_tokOf, ht]
+  simp only [hc, if_true]
+  rw [runM_bind, getValue_plain_run sc t.val vb st hn]
+  cases readVar st sc (bytesToString vb) <;> rfl
+
+theorem local_plain_identifier (sc : Nat) (n : Ecal.Parse.Node) (t : Ecal.Lex.Tok) (vb : List Nat)
+    (hname : n.name = "identifier") (ht : n.tok = some t) (hc : n.children.isEmpty = true)
+    (hn : splitDots t.val = [vb]) : Local sc n := by
+  intro f st st' hag
+  match f with
+  | 0 => unfold eval; rfl
+  | 1 =>
+    unfold eval
+    simp only [hname]
+    unfold evalIdent
+    rfl
+  | f + 2 =>
+    rw [eval_plain_identifier_run f sc n t vb st' hname ht hc hn,
+        eval_plain_identifier_run f sc n t vb st hname ht hc hn, readVar_local st st' sc _ hag]
+
+theorem local_number (sc : Nat) (n : Ecal.Parse.Node) (hname : n.name = "number") : Local sc n := by
+  intro f st st' _
+  cases f with
+  | zero => unfold eval; rfl
+  | succ f =>
+    unfold eval
+    simp only [hname]
+    rw [runM_bind, runM_bind, Ecal.Ev.runM_tokOf, Ecal.Ev.runM_tokOf]
+    cases ht : n.tok with
+    | none => rfl
+    | some t =>
+      simp only
+      obtain ⟨x, hx⟩ := numberOf_pure t
+      rw [runM_bind, runM_bind, hx]
+      rfl
+
+/-- what `numOp` makes of the results of its two operands -/
+def combine (op : Float → Float → Val) (ca cb : Ecal.Parse.Node) (ra rb : Except Sig Val) : Except Sig Val :=
+  match ra with
+  | .error e => .error e
+  | .ok a =>
+    match rb with
+    | .error e => .error e
+    | .ok b =>
+      match a, b with
+      | .num x, .num y => .ok (op x y)
+      | .num _, _ => .error (rtErr "Operand is not a number" cb)
+      | _, _ => .error (rtErr "Operand is not a number" ca)
+
+theorem numOp_run (sc : Nat) (n ca cb : Ecal.Parse.Node) (op : Float → Float → Val)
+    (hch : n.children = [some ca, some cb]) (ha : Reads sc ca) (hb : Reads sc cb) (f : Nat) (s : St) :
+    runM (numOp (f + 1) sc n op) s =
+      (combine op ca cb (runM (eval f sc ca) s).1 (runM (eval f sc cb) s).1, s) := by
+  unfold numOp
+  have hl : (n.children.length != 2) = false := by rw [hch]; rfl
+  have h0 : n.children[0]? = some (some ca) := by rw [hch]; rfl
+  have h1 : n.children[1]? = some (some cb) := by rw [hch]; rfl
+  simp only [hl, Bool.false_eq_true, if_false]
+  rw [runM_bind, Ecal.Ev.runM_child, h0]
+  simp only
+  rw [runM_bind]
+  cases hea : runM (eval f sc ca) s with
+  | mk ra sa =>
+    have ea := ha f s ra sa hea
+    subst ea
+    cases ra with
+    | error e => rfl
+    | ok a =>
+      simp only
+      rw [runM_bind, Ecal.Ev.runM_child, h1]
+      simp only
+      rw [runM_bind]
+      cases heb : runM (eval f sc cb) sa with
+      | mk rb sb =>
+        have eb := hb f sa rb sb heb
+        subst eb
+        cases rb with
+        | error e => rfl
+        | ok b =>
+          simp only [combine]
+          cases a <;> cases b <;>
+            first
+            | rfl
+            | (rw [runM_bind, Ecal.Ev.runM_child]
+               first
+               | (rw [h0]; rfl)
+               | (rw [h1]; rfl))
+
+/-- **arithExpr_value_local** (the READ half, for expressions). The result of evaluating an arithmetic
+    expression over variables and literals with `eval` in scope `sc` — value, type error or fuel — is the
+    same in any two states that agree on `sc` and its ancestors: it depends on nothing else (no other
+    invocation's scope, no heap cell), for every fuel. -/
+theorem arithExpr_value_local (sc : Nat) (e : Ecal.Parse.Node) (h : ArithExpr e) : Local sc e := by
+  induction h with
+  | ident n t vb h1 h2 h3 h4 => exact local_plain_identifier sc n t vb h1 h2 h3 h4
+  | number n h1 => exact local_number sc n h1
+  | arith n ca cb hch hname hca hcb iha ihb =>
+    intro f st st' hag
+    cases f with
+    | zero => unfold eval; rfl
+    | succ f =>
+      obtain ⟨op, hop⟩ := Ecal.Lemmas.C06Sites.eval_arith f sc n ca cb hch hname
+      rw [hop]
+      cases f with
+      | zero => unfold numOp; rfl
+      | succ f =>
+        rw [numOp_run sc n ca cb op hch (arithExpr_reads sc ca hca) (arithExpr_reads sc cb hcb) f st',
+            numOp_run sc n ca cb op hch (arithExpr_reads sc ca hca) (arithExpr_reads sc cb hcb) f st]
+        simp only
+        rw [iha f st st' hag, ihb f st st' hag]
+
+/-- a `Frame` step of invocation A leaves every scope on the chain of a scope of invocation B as it was -/
+theorem frame_agree_other (snkA snkB scB : Nat) (st st' : St) (hf : Frame snkA st st')
+    (hB : Up st scB snkB) (hAB : ¬ Up st snkA snkB) (hBA : ¬ Up st snkB snkA) : AgreeOn st st' scB := by
+  intro t ht
+  apply hf.keep t
+  intro htA
+  rcases Up.comparable ht hB with h | h
+  · -- `t` is below B's sink
+    exact disjoint_subtrees st snkA snkB t h hAB hBA htA
+  · -- `t` is an ancestor of B's sink: then B's sink would be below A's
+    exact hBA (h.trans htA)
+
+/-- **computed_body_noninterference** (write half + read half, two invocations, about `eval`). Invocation A
+    evaluates a fragment body (`let v`, `v := e` with arithmetic `e`) in its sink scope; invocation B's
+    sink scope is neither above nor below A's. Then every arithmetic expression over variables and literals
+    that B evaluates in its sink scope or below gives exactly the same result — value or error, for every
+    fuel — after A's body as before it: what B reads (its own `event`, its locals, the variables of the
+    declaring chain) is not influenced by A. No hypothesis about what evaluation writes or reads. -/
+theorem computed_body_noninterference (snkA snkB scB f g : Nat) (names : List String)
+    (n e : Ecal.Parse.Node) (hname : n.name = "statements")
+    (hall : ∀ c ∈ n.children, ∃ c', c = some c' ∧ (IsLet c' ∨ IsAssignExpr names c'))
+    (st st' : St) (x : Val) (hctx : Ctx snkA snkA names st)
+    (h : runM (eval (f + 5) snkA n) st = (.ok x, st'))
+    (hB : Up st scB snkB) (hAB : ¬ Up st snkA snkB) (hBA : ¬ Up st snkB snkA) (he : ArithExpr e) :
+    (runM (eval g scB e) st').1 = (runM (eval g scB e) st).1 :=
+  arithExpr_value_local scB e he g st st'
+    (frame_agree_other snkA snkB scB st st'
+      (computed_body_frame snkA f snkA names n hname hall st st' x hctx h) hB hAB hBA)
+
+/-- non-vacuity of the two-invocation hypotheses on `demo2` (A's sink scope 1, B's sink scope 2): the context
+    `demo2_ctx`, the incomparability of the sinks, and B's expression `event + 1` -/
+example : Up demo2 2 2 ∧ ¬ Up demo2 1 2 ∧ ¬ Up demo2 2 1 ∧
+    ArithExpr (.mk "plus" none 0 .none .none [some (idNode 101), some numNode] []) :=
+  ⟨Up.refl 2, demo2_not_up 1 2 (Or.inl ⟨rfl, rfl⟩), demo2_not_up 2 1 (Or.inr ⟨rfl, rfl⟩),
+   ArithExpr.arith _ (idNode 101) numNode rfl (Or.inl rfl)
+     (ArithExpr.ident _ _ [101] rfl rfl rfl (by decide)) (ArithExpr.number _ rfl)⟩
 end Ecal.Props.C11Frame
